@@ -258,6 +258,24 @@ def run_case(ns, ctx, case):
             except Exception as e:
                 viol.append(V("parameters:raises", f"parameters() raised {type(e).__name__}", trail=trail, after=after)); return
             exp = exp_params(mid)
+            # the lists handed out are the caller's: emptying or extending them changes nothing in the module
+            if isinstance(got, list) and counters.get("observations", 0) % 3 == 0:
+                kept_ = list(got)
+                got.clear(); got.append("junk")
+                try:
+                    subs_ = real.submodules()
+                    if isinstance(subs_, list):
+                        subs_keep_ = list(subs_); subs_.clear()
+                        again_s = real.submodules()
+                        if len(again_s) != len(subs_keep_) or any(a_ is not b_ for a_, b_ in zip(again_s, subs_keep_)):
+                            viol.append(V("submodules:returned-list-aliases-registry", "emptying the list returned by submodules() changed what the module reports", trail=trail)); return
+                    again = real.parameters()
+                except Exception as e:
+                    viol.append(V("parameters:raises", f"parameters() raised {type(e).__name__} after the caller modified an earlier result", trail=trail)); return
+                counters["returned_list_alias_checks"] = counters.get("returned_list_alias_checks", 0) + 1
+                if len(again) != len(kept_) or any(a_ is not b_ for a_, b_ in zip(again, kept_)):
+                    viol.append(V("parameters:returned-list-aliases-registry", "modifying the list returned by parameters() changed what the module reports", trail=trail)); return
+                got = again
             got_ids = []
             for p in got:
                 match = [pid for pid, q in params.items() if q is p]
